@@ -20,6 +20,7 @@ def impl(case):
     reset_pyrates()
     try:
         from pyrates import CircuitTemplate, NodeTemplate, OperatorTemplate
+        from pyrates.ir.circuit import PyRatesException
         NCLS = 4
         opname = {(kd, c): f"{kd}{'abcd'[c]}" for kd in "st" for c in range(NCLS)}
         ops = {}
@@ -35,7 +36,20 @@ def impl(case):
         # a relay: an ALGEBRAIC output z = g * r_in (kind 'r')
         relay_op = OperatorTemplate("ra", equations=["z = g * r_in"], variables={"z": "output(0.0)", "r_in": "input(0.0)", "g": 1.0})
         ops[("r", 0)] = relay_op; opname[("r", 0)] = "ra"
+        # twins: two model source nodes (ix, iu) that are the two state variables x, u of ONE operator on ONE node
+        twin_op = OperatorTemplate("tw", equations=["x' = k + k + k", "u' = m + m + m + m"],
+                                   variables={"x": "output(0.0)", "u": "variable(0.0)", "k": 1.0, "m": 1.0})
+        twin_u = {iu: ix for ix, iu in case.get("twins", [])}; twin_x = {ix: iu for ix, iu in case.get("twins", [])}
         for i, n in enumerate(case["nodes"]):
+            if i in twin_u:
+                outs[f"n{i}"] = f"n{twin_u[i]}/tw/u"
+                continue
+            if i in twin_x:
+                nu = case["nodes"][twin_x[i]]
+                nodes[f"n{i}"] = NodeTemplate(f"N{i}", operators={twin_op: {"x": float(Fr(n["x0"])), "k": float(Fr(n["k"])),
+                                                                             "u": float(Fr(nu["x0"])), "m": float(Fr(nu["k"]))}})
+                outs[f"n{i}"] = f"n{i}/tw/x"
+                continue
             key = (n["kind"], n["cls"])
             vals = {"x": float(Fr(n["x0"]))}
             if n["kind"] == "s":
@@ -57,16 +71,20 @@ def impl(case):
                 d["delay"] = None
             elif ds != "nokey":
                 d["delay"] = int(Fr(ds)) if case.get("int_delays") and Fr(ds).denominator == 1 else float(Fr(ds))
-            sk = opname[(case["nodes"][s]["kind"], case["nodes"][s]["cls"])]
             tk = opname[(case["nodes"][t]["kind"], case["nodes"][t]["cls"])]
-            edges.append((f"n{s}/{sk}/{'z' if case['nodes'][s]['kind'] == 'r' else 'x'}", f"n{t}/{tk}/r_in", None, d))
+            if s in twin_u or s in twin_x:
+                src = f"n{twin_u.get(s, s)}/tw/{'u' if s in twin_u else 'x'}"
+            else:
+                sk = opname[(case["nodes"][s]["kind"], case["nodes"][s]["cls"])]
+                src = f"n{s}/{sk}/{'z' if case['nodes'][s]['kind'] == 'r' else 'x'}"
+            edges.append((src, f"n{t}/{tk}/r_in", None, d))
         dt = float(Fr(case["dt"]))
         c = CircuitTemplate("c", nodes=nodes, edges=edges)
         try:
             r = c.run(simulation_time=case["steps"] * dt, step_size=dt, solver=case["solver"], outputs=outs,
                       vectorize=case["vectorize"], float_precision="float64", backend="default", clear=True, verbose=False,
                       in_place=False)
-        except (IndexError, ValueError, KeyError, TypeError, AttributeError, NameError) as e:
+        except (IndexError, ValueError, KeyError, TypeError, AttributeError, NameError, PyRatesException) as e:
             return {"raised": type(e).__name__, "msg": str(e)[:160]}
         cols = [f"n{i}" for i, n in enumerate(case["nodes"]) if n["kind"] != "r"] + [f"tap{j}" for j in range(len(case.get("taps", [])))]
         rows = []
@@ -191,7 +209,7 @@ def gen_case(rng, kind="valid"):
     dt = Fr(1, rng.choice([4, 8, 16]))
     vec = rng.random() < 0.5 or fan
     key = (lambda i: nodes[i]["cls"]) if vec else (lambda i: i)
-    p_undelayed = {"valid": 0.3, "sibling": 0.4, "parallel": 0.3, "heun": 0.2, "none": 0.4, "short": 0.2, "tap": 0.3, "mixnone": 0.6}[kind]
+    p_undelayed = {"valid": 0.3, "sibling": 0.4, "parallel": 0.3, "heun": 0.2, "none": 0.4, "short": 0.2, "tap": 0.3, "mixnone": 0.6, "twin": 0.3}[kind]
     uform = "none" if kind == "none" else "nokey"
     edges = []
     for j in range(len(T) + rng.randint(0, 3) if fan else rng.randint(1, 7)):
@@ -239,6 +257,27 @@ def gen_case(rng, kind="valid"):
             if e[3] == "nokey" and rng.random() < 0.5:
                 e[3] = "none"
     case = dict(dt=str(dt), steps=steps, vectorize=vec, solver="heun" if kind == "heun" else "euler", nodes=nodes, edges=edges)
+    if kind in ("valid", "twin") and rng.random() < (1.0 if kind == "twin" else 0.2):
+        # twins: one node whose operator has TWO state variables x' = 3k, u' = 4m, both with out-edges (mostly delayed); in the model
+        # they are two source nodes of classes 2 and 3
+        case["twins"] = []
+        for _ in range(rng.randint(1, 2)):
+            ix = len(nodes); nodes.append(dict(kind="s", cls=2, x0=str(Fr(rng.randint(1, 8), 4)), k=str(Fr(rng.randint(1, 4), 2))))
+            iu = len(nodes); nodes.append(dict(kind="s", cls=3, x0=str(Fr(rng.randint(1, 8), 4)), k=str(Fr(rng.randint(1, 4), 2))))
+            case["twins"].append([ix, iu])
+            for src in (ix, iu):
+                used = set()
+                for _ in range(rng.randint(1, 2)):
+                    t_ = rng.choice(T)
+                    if (src, t_) in used:
+                        continue
+                    used.add((src, t_))
+                    edges.append([src, t_, str(Fr(rng.choice([-4, -2, -1, 1, 2, 3]), 4)),
+                                  "nokey" if rng.random() < 0.2 else str(_delay(rng, dt, 2) if True else 0)])
+        for e in edges:
+            if e[3] not in ("nokey", "none") and rhe(Fr(e[3]) / dt) < 2:
+                e[3] = str(Fr(e[3]) + dt)
+        case["steps"] = max(case["steps"], max([rhe(Fr(e[3]) / dt) for e in edges if e[3] not in ("nokey", "none")] + [0]) + 3)
     if kind in ("valid", "sibling", "tap"):
         # taps: every source node of some structural classes carries a second operator w' = x (a node with another operator list is
         # another class, so a class is tapped as a whole); integer-valued delays written as Python ints
@@ -354,7 +393,7 @@ def nontrivial(case):
     return any(e[3] not in ("nokey", "none") and rhe(Fr(e[3]) / dt) >= 2 for e in case["edges"])
 
 # ---------------------------------------------------------------------------------------------- model side
-GUARDS = ["g_euler", "g_no_undelayed_sibling", "g_no_parallel_buffered", "g_delays_ge2", "g_uniform_keys", "g_no_tap_on_buffered"]
+GUARDS = ["g_euler", "g_no_undelayed_sibling", "g_no_parallel_buffered", "g_delays_ge2", "g_uniform_keys", "g_no_tap_on_buffered", "g_no_twin_collision"]
 HEADER = """From Coq Require Import List ZArith QArith Qcanon Bool Arith.
 From PV Require Import Ring Corr.
 Import ListNotations.
@@ -411,12 +450,14 @@ def model_compare(ctx, cases, outs, tag):
         body = ("Definition cases := " + clist(terms) + ".\nDefinition taps : list (list nat) := " + taps + ".\n"
                 "Eval vm_compute in (mismatches okI cases).\nEval vm_compute in (mismatches okS cases).\n"
                 "Eval vm_compute in (mismatches (gd wf) cases).\n" +
-                "".join(f"Eval vm_compute in (mismatches (gd {g}) cases).\n" for g in GUARDS if g != "g_no_tap_on_buffered") +
-                "Eval vm_compute in (mismatches (fun p => gd (g_no_tap_on_buffered (snd p)) (fst p)) (combine cases taps)).\n")
+                "".join(f"Eval vm_compute in (mismatches (gd {g}) cases).\n" for g in GUARDS if g not in ("g_no_tap_on_buffered", "g_no_twin_collision")) +
+                "Eval vm_compute in (mismatches (fun p => gd (g_no_tap_on_buffered (snd p)) (fst p)) (combine cases taps)).\n"
+                "Definition twins : list (list (nat * nat)) := " + clist([clist([f"({cnat(a)}, {cnat(b)})" for a, b in c.get("twins", [])]) for c in cases[s:s + shard]]) + ".\n"
+                "Eval vm_compute in (mismatches (fun p => gd (g_no_twin_collision (snd p)) (fst p)) (combine cases twins)).\n")
         ls = parse_nat_lists(coq_eval(ctx, f"c09_{tag}_{s}", HEADER, body))
         assert len(ls) == 3 + len(GUARDS), ls
         badI += [s + i for i in ls[0]]; badS += [s + i for i in ls[1]]; nwf += [s + i for i in ls[2]]
-        for g, l in zip([g for g in GUARDS if g != "g_no_tap_on_buffered"] + ["g_no_tap_on_buffered"], ls[3:]):
+        for g, l in zip([g for g in GUARDS if g not in ("g_no_tap_on_buffered", "g_no_twin_collision")] + ["g_no_tap_on_buffered", "g_no_twin_collision"], ls[3:]):
             gfalse[g] += [s + i for i in l]
     return badI, badS, nwf, gfalse
 
@@ -462,7 +503,7 @@ def check(ctx):
     else:
         cases = [c["case"] if "case" in c else c for c in load_corpus("C09")]
         cases += [gen_case(ctx.rng, "valid") for _ in range(n_valid)]
-        for kind in ("sibling", "parallel", "heun", "none", "short", "tap", "mixnone"):
+        for kind in ("sibling", "parallel", "heun", "none", "short", "tap", "mixnone", "twin"):
             cases += [gen_case(ctx.rng, kind) for _ in range(n_viol)]
         cases += [gen_relay(ctx.rng) for _ in range(n_valid // 5)]
         cases += [gen_conn(ctx.rng) for _ in range(n_valid // 5)]
